@@ -90,6 +90,10 @@ def build(spec, src_root):
                 idx = [k for k, l in enumerate(rest) if l.strip().startswith(g["before"].strip()) and not l.endswith(MARK)]
             else:
                 idx = [k for k, l in enumerate(rest) if l.strip() == g["before"].strip() and not l.endswith(MARK)]
+            if "nth" in g and "of" in g:
+                if len(idx) != g["of"]:
+                    raise Lost("ghost anchor %r matches %d lines in %s (expected %d)" % (g.get("before"), len(idx), f["name"], g["of"]))
+                idx = [idx[g["nth"]]]
             if len(idx) != 1:
                 raise Lost("ghost anchor %r matches %d lines in %s" % (g.get("before"), len(idx), f["name"]))
             k = idx[0]
@@ -132,7 +136,7 @@ def run_verus_unit(runner, unit, r):
     os.makedirs(d, exist_ok=True)
     f = os.path.join(d, "extracted.rs")
     open(f, "w").write(text)
-    keep = os.path.join(VERIF, "evidence", "verus")
+    keep = os.path.join(os.environ.get("VERIF_EVIDENCE_DIR") or os.path.join(VERIF, "evidence"), "verus")
     os.makedirs(keep, exist_ok=True)
     if unit.kind != "canary":
         open(os.path.join(keep, unit.name + ".extracted.rs"), "w").write(text)
